@@ -92,6 +92,7 @@ C3Radius(r, j) ==
         r2 == CircumR2(p0, p1, p2)
         rc == x.r \div 100 IN                      \* radius in units of 1/100
     x.r > 0 /\ x.r < 4000000 /\ AbsV(rc * rc - QuantRat(r2[1], r2[2], 4)) <= 4 * rc + 8
+Shallow(r) == "shallow" \in DOMAIN r /\ r.shallow
 JThree(r) ==
     LET o == r.out n == Len(r.prs)
         proper == {j \in 1..n : C3Ok(r, j) = "proper"} IN
@@ -99,10 +100,12 @@ JThree(r) ==
     /\ (Len(o.res) = n /\ \A j \in 1..n : Len(o.res[j].on) = 3) =>
        /\ ClauseAll(i, "C09.c3.rejects_collinear", (1..n) \ proper, LAMBDA j : ~o.res[j].ok)
        /\ ClauseAll(i, "C09.c3.accepts_noncollinear", proper, LAMBDA j : o.res[j].ok)
-       /\ ClauseAll(i, "C09.c3.finite", proper, LAMBDA j : o.res[j].finite)
-       /\ ClauseAll(i, "C09.c3.equidistant_centre", {j \in proper : o.res[j].ok /\ o.res[j].finite}, LAMBDA j : C3Centre(r, j))
-       /\ ClauseAll(i, "C09.c3.radius", {j \in proper : o.res[j].ok /\ o.res[j].finite}, LAMBDA j : C3Radius(r, j))
-       /\ ClauseAll(i, "C09.c3.through_points", {j \in proper : o.res[j].ok /\ o.res[j].finite},
+       \* shallow triples (turning angle below a milliradian, circumradius of millions of units): acceptance and incidence only
+       /\ ~Shallow(r) =>
+           /\ ClauseAll(i, "C09.c3.finite", proper, LAMBDA j : o.res[j].finite)
+           /\ ClauseAll(i, "C09.c3.equidistant_centre", {j \in proper : o.res[j].ok /\ o.res[j].finite}, LAMBDA j : C3Centre(r, j))
+           /\ ClauseAll(i, "C09.c3.radius", {j \in proper : o.res[j].ok /\ o.res[j].finite}, LAMBDA j : C3Radius(r, j))
+       /\ ClauseAll(i, "C09.c3.through_points", {j \in proper : o.res[j].ok /\ (Shallow(r) \/ o.res[j].finite)},
                     LAMBDA j : \A k \in 1..3 : AbsV(o.res[j].on[k]) <= TolR)
 
 \* ---------------------------------------------------------------- Levenberg-Marquardt circle fit
@@ -132,9 +135,12 @@ SupportUpper(dq, tn, td) == Cardinality({j \in 1..Len(dq) : AbsV(dq[j]) * td <= 
 JRansac(r) ==
     LET o == r.out
         on == OnCount(r.pts, r.ctr, r.R)
-        fair == /\ FairContamination(r.pts, r.ctr, r.R)
+        \* a rival structure (another circle with one point less than the generating one) halves the share of the generating
+        \* circle: still a fair search with the default or at least 300 iterations (each iteration hits it with probability 1/8)
+        rivalFair == "rival" \in DOMAIN r /\ r.rival /\ on >= 3 /\ 5 * on >= 2 * Len(r.pts) /\ (r.iters = 0 \/ r.iters >= 300)
+        fair == /\ (FairContamination(r.pts, r.ctr, r.R) \/ rivalFair)
                 /\ r.tolN > 0 /\ r.tolD > 0 /\ r.tolN < r.R * r.tolD
-                /\ (r.iters = 0 \/ r.iters >= 200 \/ (r.iters >= 50 /\ 5 * on >= 4 * Len(r.pts)))
+                /\ (rivalFair \/ r.iters = 0 \/ r.iters >= 200 \/ (r.iters >= 50 /\ 5 * on >= 4 * Len(r.pts)))
                 /\ (r.rmin < 0 \/ r.rmin < r.R) /\ (r.rmax < 0 \/ r.rmax > r.R) IN
     /\ fair => Clause(i, "C09.ransac.finds_a_circle", o.ok)
     /\ (fair /\ o.ok) =>
